@@ -18,12 +18,13 @@ import (
 
 const c16Rule = "completion in account context (cursor inside an account name of a posting, 0..n characters typed) and in payee context (cursor inside the payee of a transaction header) from EVERY open document, with completion.maxResults and completion.fuzzyMatching delivered through workspace/configuration answers and changed during the history. Oracles against the occurrence table over the governing tree: (1) soundness: every offered name exists in the tree (an account or an ancestor of one; a payee) and matches the typed fragment (subsequence with fuzzy matching, prefix without); (2) completeness: when the limit did not cut the list, every existing name that starts with the fragment is offered; (3) at most maxResults items; (4) with nothing typed the usage counts of the offered names (postings per account, transactions per payee over the tree) are non-increasing; (5) prefix law: after the client changes maxResults (a configuration round trip) the same request returns a list of which the shorter is a prefix of the longer. Non-trivial: >= 2 files in the governing tree or a request from a document other than the root. Distinct: hash of (tree shapes over time, requesting documents)."
 
-const c18Rule = "the diagnostics published for EVERY open document after it was re-analysed (a no-op edit), with diagnostics.undeclaredAccounts delivered through workspace/configuration answers and toggled during the history. Oracle against the occurrence table: the declared accounts are the account directives of all files of the governing tree (open buffers over disk); if there is none, or the setting is off, no UNDECLARED_ACCOUNT warning may be published; otherwise exactly the posting lines of the document whose account is neither declared, nor below a declared account, nor under assets/liabilities/equity/expenses/revenues/income carry one warning each. Non-trivial: >= 2 files in the governing tree or a document other than the root. Distinct: hash of (tree shapes over time, observed documents)."
+const c18Rule = "the diagnostics published for EVERY open document after it was re-analysed (a no-op edit), with diagnostics.undeclaredAccounts delivered through workspace/configuration answers and toggled during the history. Oracle against the occurrence table: the declared accounts are the account directives of all files of the governing tree (open buffers over disk); if there is none, or the setting is off, no UNDECLARED_ACCOUNT warning may be published; otherwise exactly the posting lines of the document whose account is neither declared, nor below a declared account, nor under assets/liabilities/equity/expenses/revenues/income carry one warning each; likewise, with diagnostics.undeclaredCommodities, each commodity without a commodity directive anywhere in the tree is warned about once per transaction, at its first use. Non-trivial: >= 2 files in the governing tree or a document other than the root. Distinct: hash of (tree shapes over time, observed documents)."
 
 type treeSettings struct {
 	maxResults int
 	fuzzy      bool
 	undeclAcct bool
+	undeclCom  bool
 }
 
 func (s *treeSettings) draw(c *simrt.Chooser, prop string) {
@@ -33,13 +34,14 @@ func (s *treeSettings) draw(c *simrt.Chooser, prop string) {
 	}
 	if prop == "c18" {
 		s.undeclAcct = c.Choose("undeclaredAccounts", 4) != 0
+		s.undeclCom = c.Choose("undeclaredCommodities", 4) != 0
 	}
 }
 
 func (s *treeSettings) payload() J {
 	return J{
 		"completion":  J{"maxResults": s.maxResults, "fuzzyMatching": s.fuzzy},
-		"diagnostics": J{"undeclaredAccounts": s.undeclAcct},
+		"diagnostics": J{"undeclaredAccounts": s.undeclAcct, "undeclaredCommodities": s.undeclCom},
 	}
 }
 
@@ -310,6 +312,81 @@ func (e treeEngine) observeUndeclared(ctx *RunCtx, c *simrt.Chooser, d *Driver, 
 			cls = "no-warnings-although-the-tree-declares-accounts"
 		}
 		fail("ground-truth", cls, fmt.Sprintf("UNDECLARED_ACCOUNT warnings published for d%d are on lines %v (line -> count); accounts declared over the governing tree %s are %v and diagnostics.undeclaredAccounts=%v, so they must be on lines %v", doc.No, got, treeNames(tree), dn, st.undeclAcct, want),
+			map[string]any{"workspace": w.Root != "", "fromRoot": doc == tree[0]})
+		return false
+	}
+	// commodities: each undeclared commodity once per transaction, at its first use
+	declCom := map[string]bool{}
+	for _, t := range tree {
+		lines, _, _ := t.View()
+		for _, gl := range lines {
+			for _, o := range gl.Occs {
+				if o.Kind == "commodity" && o.Decl {
+					declCom[o.Name] = true
+				}
+			}
+		}
+	}
+	wantC := map[string]int{}
+	if st.undeclCom && len(declCom) > 0 {
+		seen := map[string]bool{}
+		for li, gl := range doc.Lines {
+			if !strings.HasPrefix(gl.Text, " ") {
+				seen = map[string]bool{} // a new entry starts
+			}
+			for _, o := range gl.Occs {
+				if o.Kind == "commodity" && !o.Decl && strings.HasPrefix(gl.Text, "    ") && !declCom[o.Name] && !seen[o.Name] {
+					seen[o.Name] = true
+					wantC[fmt.Sprintf("%d:%s", li, o.Name)]++
+				}
+			}
+		}
+	}
+	gotC := map[string]int{}
+	for i := len(d.Sess.Out) - 1; i >= 0; i-- {
+		m := &d.Sess.Out[i]
+		if m.Method != "textDocument/publishDiagnostics" {
+			continue
+		}
+		var p struct {
+			URI         string `json:"uri"`
+			Diagnostics []struct {
+				Code    any    `json:"code"`
+				Message string `json:"message"`
+				Range   struct{ Start struct{ Line int } }
+			} `json:"diagnostics"`
+		}
+		json.Unmarshal(m.Params, &p)
+		if p.URI != doc.URI {
+			continue
+		}
+		for _, dg := range p.Diagnostics {
+			if fmt.Sprint(dg.Code) == "UNDECLARED_COMMODITY" {
+				name := ""
+				if a := strings.Index(dg.Message, "'"); a >= 0 {
+					if b := strings.Index(dg.Message[a+1:], "'"); b >= 0 {
+						name = dg.Message[a+1 : a+1+b]
+					}
+				}
+				gotC[fmt.Sprintf("%d:%s", dg.Range.Start.Line, name)]++
+			}
+		}
+		break
+	}
+	var dc []string
+	for k := range declCom {
+		dc = append(dc, k)
+	}
+	sort.Strings(dc)
+	if fmt.Sprint(gotC) != fmt.Sprint(wantC) {
+		cls := "wrong-commodity-warnings"
+		switch {
+		case len(wantC) == 0:
+			cls = "commodity-warnings-although-none-expected"
+		case len(gotC) == 0:
+			cls = "no-commodity-warnings-although-the-tree-declares-commodities"
+		}
+		fail("ground-truth", cls, fmt.Sprintf("UNDECLARED_COMMODITY warnings published for d%d are %v (line:commodity -> count); commodities declared over the governing tree %s are %v and diagnostics.undeclaredCommodities=%v, so they must be %v", doc.No, gotC, treeNames(tree), dc, st.undeclCom, wantC),
 			map[string]any{"workspace": w.Root != "", "fromRoot": doc == tree[0]})
 		return false
 	}
